@@ -455,7 +455,9 @@ struct ModelSpec
     char const* name = "";
     int needed = 0;  // secondaries allocated per successful call
     bool closed = false;  // all products returned -> momentum check
-    long draw_bound = 100000;  // calibrated bound on 32-bit draws
+    // bound on 32-bit draws: >= 100 x the largest count observed in 3e5
+    // cases per harness (402 for the table-free models, 3324 for SB e-)
+    long draw_bound = 50000;
     int ns_min = -1;  // >= 0: span may be a prefix of the allocation
 };
 
@@ -972,6 +974,7 @@ struct RunResult
 {
     Verdict verdict = Verdict::pass;
     bool done = false;  // verdict is final (failure path / violation / ...)
+    bool unbounded = false;  // draw bound exceeded for 3 streams
     Outcome out;
 };
 
@@ -1024,6 +1027,7 @@ RunResult run_call(World& w,
         rr.done = true;
         if (exceeded == 3)
         {
+            rr.unbounded = true;
             rr.verdict = log.fail(
                 fmt("%s: sampling did not finish within %ld random draws for "
                     "3 independent streams",
@@ -1038,6 +1042,8 @@ RunResult run_call(World& w,
         return rr;
     }
     log.count("draws_total", draws);
+    if (draws > 200 && getenv("C04_DEBUG_DRAWS"))
+        fprintf(stderr, "DRAWS %s %ld\n", spec.name, draws);
     if (draws > 100)
         log.label("draws>100");
     if (draws > 1000)
